@@ -375,6 +375,9 @@ def wicks(expr, rules: Rules = None, simplify_kronecker_deltas: bool = False):
     # and a single second quantized operator can not be contracted
     if isinstance(expr, (NO, FermionicOperator)):
         return S.Zero
+    # a fermionic operator squared vanishes (a_p a_p = 0)
+    if isinstance(expr, Pow) and isinstance(expr.base, FermionicOperator):
+        return S.Zero
 
     # break up any NO-objects, and evaluate commutators
     expr = expr.doit(wicks=True).expand()
@@ -391,6 +394,11 @@ def wicks(expr, rules: Rules = None, simplify_kronecker_deltas: bool = False):
         for factor in expr.args:
             if factor.is_commutative:
                 c_part.append(factor)
+            elif isinstance(factor, Pow) and \
+                    isinstance(factor.base, FermionicOperator):
+                # sympy collects two adjacent identical operators in a Pow.
+                # A fermionic operator squared vanishes: a_p a_p = 0
+                return S.Zero
             else:
                 op_string.append(factor)
 
